@@ -324,6 +324,8 @@ def returned_generation_is_committed(race, start, reqs):
 
 
 def integrity(race):
+    from pv import oracles
+    oracles.forest_invariant(race.final, 'forest-after-race')
     if race.final.dangling:
         raise Violation({'clause': 'dangling-reference-after-race',
                          'kind': race.final.dangling[0].split(' ')[0]},
